@@ -3255,6 +3255,10 @@ public:
           operator-=(x);
           assert(!is_bottom());
           m_vert_map.insert(vmap_elt_t(x, {v, w}));
+        } else {
+          // no octagon constraint can be extracted from e: the old
+          // value of x must still be forgotten.
+          set(x, x_int);
         }
       }
     }
